@@ -230,19 +230,38 @@ def run_asgi_http(app, scope, events=None, fail_send_at=None, fail_exc=OSError, 
     return res
 
 
-def run_lifespan(app, fail_startup=False, stepper=None, spec_version='2.0', state_dict=None):
-    """Send lifespan.startup then lifespan.shutdown; returns list of events the app sent + outcome."""
+def run_lifespan(app, fail_startup=False, stepper=None, spec_version='2.0', state_dict=None,
+                 server_like=False, log=None):
+    """Send lifespan.startup then lifespan.shutdown; returns list of events the app sent + outcome.
+
+    server_like=True: behave like a real server after a failed startup - the receive channel stays
+    open but lifespan.shutdown is never delivered once the app has sent lifespan.startup.failed
+    (an app that awaits receive() again is parked: outcome 'blocked'), and shutdown is only
+    delivered after startup was answered.  log: optional list that gets ('receive', type) /
+    ('send', type) entries in the order they happened (to interleave with an application trace).
+    """
     st = stepper or aio.shared()
     sent = []
     script = [{'type': 'lifespan.startup'}, {'type': 'lifespan.shutdown'}]
     idx = {'i': 0}
     park = {}
 
+    def _types():
+        return [e.get('type', '') for e in sent if isinstance(e, dict)]
+
     async def receive():
         # a server sends shutdown only after startup was answered
         if idx['i'] == 1 and not any(e.get('type', '').startswith('lifespan.startup.') for e in sent):
             pass
+        if server_like and idx['i'] == 1 and 'lifespan.startup.complete' not in _types():
+            # startup failed (or never answered): a server does not ask for a shutdown
+            if log is not None:
+                log.append(('receive', 'parked'))
+            park['f'] = st.loop.create_future()
+            await park['f']
         if idx['i'] < len(script):
+            if log is not None:
+                log.append(('receive', script[idx['i']]['type']))
             ev = script[idx['i']]
             idx['i'] += 1
             return ev
@@ -251,6 +270,8 @@ def run_lifespan(app, fail_startup=False, stepper=None, spec_version='2.0', stat
 
     async def send(ev):
         sent.append(ev)
+        if log is not None:
+            log.append(('send', ev.get('type') if isinstance(ev, dict) else repr(ev)))
 
     scope = {'type': 'lifespan', 'asgi': {'version': '3.0', 'spec_version': spec_version}}
     if state_dict is not None:
